@@ -23,7 +23,8 @@ ASSUMPTIONS = ["vf/ref/qasm2.py reads the emitted subset with standard openQASM 
                "measure, reset, if(c==k)); cross-examined against qiskit.qasm2 in the self-test when qiskit imports",
                "equality of circuits = same register counts and, per quantum register, the same sequence of operations after expanding "
                "wrappers and dropping identities"]
-REQUIRED_CLASSES = {"roundtrip": ["wrapper_len>=2", "multi_then_multi", "reg>=10", "phase_dagger", "identity_only_wrapper", "photon_one_qubit", "mcr_reg>=10"]}
+REQUIRED_CLASSES = {"roundtrip": ["wrapper_len>=2", "multi_then_multi", "reg>=10", "phase_dagger", "identity_only_wrapper", "photon_one_qubit", "mcr_reg>=10",
+                                 "exported_after:unwrap", "exported_after:group", "exported_after:rmid", "exported_after:copy"]}
 
 
 def norm_wires(desc):
@@ -93,6 +94,14 @@ def check(case, sub="roundtrip"):
     cl = classes(desc)
     circ = gc.build(desc)
     n = desc["ne"] + desc["np"]
+    # exporting a circuit that was rewritten in place (or is a copy) must work just as well: the identity-free expanded
+    # sequence on every register is unchanged by these rewrites
+    for rw in case.get("pre", []):
+        if rw == "copy":
+            circ = guarded(sub, icls, circ.copy)
+        else:
+            guarded(sub, icls, {"unwrap": circ.unwrap_nodes, "group": circ.group_one_qubit_gates, "rmid": circ.remove_identity}[rw])
+        cl.append("exported_after:" + rw)
     # (4) determinism
     q1 = guarded(sub, icls, circ.to_openqasm)
     q2 = guarded(sub, icls, circ.to_openqasm)
@@ -190,7 +199,8 @@ def st_big_circuit(draw):
 
 def strat(tier):
     small = gc.st_circuit(max_q=5, max_len=25, max_c=3)
-    return st.one_of(small, small, st_big_circuit()).map(lambda c: {"circ": c})
+    pre = st.one_of(st.just([]), st.lists(st.sampled_from(["unwrap", "group", "rmid", "copy"]), min_size=1, max_size=2))
+    return st.tuples(st.one_of(small, small, st_big_circuit()), pre).map(lambda t: {"circ": t[0], "pre": t[1]})
 
 
 KINDS = (
